@@ -635,6 +635,8 @@ class Lane(LaneBase):
                     except Exception:  # noqa: BLE001
                         pass
         lines, out, oracle, tags = [], [], [], set()
+        from harness import gen as _gen0
+        _gen0.query_noise(g, ('c08-rt', case['seed']))      # read-only look-ups, some about names that are not nodes
         if case['seed'] % 3 == 0:
             # every export is taken and vandalised twice (first from whatever the caches hold, then from warm caches): the
             # exports used for the round trips below must still describe the graph
@@ -676,6 +678,15 @@ class Lane(LaneBase):
                     out.append(r)
                     oracle += self.rt_oracle(g, h, r, v, cyc, 'from_gml_string(to_gml_string())')
             # skeleton
+            try:
+                sa, snm = g.skeleton.to_numpy()
+                adjp = {frozenset((e.source.identifier, e.destination.identifier)) for e in g.edges}
+                if list(snm) != sorted(names) or any(
+                        int(sa[i][j]) != (1 if frozenset((a, b)) in adjp and a != b else 0)
+                        for i, a in enumerate(snm) for j, b in enumerate(snm)):
+                    oracle.append('skeleton.to_numpy(): A[i,j] = 1 is not exactly "adjacent in the graph" under the returned names')
+            except Exception as e:  # noqa: BLE001
+                oracle.append(f'skeleton.to_numpy() raised {type(e).__name__}')
             r, h = attempt(lambda: Cls.from_skeleton(g.skeleton, validate=bool(v)), enc_graph)
             lines.append(f'mx from_skel {cls} {v} {tok}')
             out.append(r)
